@@ -112,7 +112,10 @@ def build_stream(kind, dbx, rng, n_events):
             line = wire.actisense_line(rng.randrange(8), d.pgn, rng.choice([1, 2, 3]), 255, pb, ts)
             packets.append(line.encode() + rng.choice([b"\r\n", b"\n"]))
         return packets, pool
-    events = hist.build_history(pool, rng, [1, 2, 3], n_events, {s: [hist.claim_name(100 + s, 1851)] for s in (1, 2, 3)}, p_claim=0.05)
+    # claims: a known device, and one whose manufacturer / class / function codes are not in the lookup tables (its
+    # identity has no names - the messages are just as deliverable)
+    events = hist.build_history(pool, rng, [1, 2, 3], n_events,
+                                {s: [hist.claim_name(100 + s, 1851), hist.claim_name(200 + s, 1999, function=251, dev_class=119)] for s in (1, 2, 3)}, p_claim=0.07)
     for ev in events:
         packets.append(packetise(kind, ev, rng))
         if rng.random() < 0.15:
@@ -174,7 +177,7 @@ def _boundaries(packets):
         yield pos
 
 
-def run_one(kind, stream, cuts, idle_steps, settings, cb, split_at=None, resume_at=None, bystander=False):
+def run_one(kind, stream, cuts, idle_steps, settings, cb, split_at=None, resume_at=None, bystander=False, cb_style="method"):
     """split_at: byte offset (a packet boundary) at which the gateway drops the link; the rest of the stream arrives
     on the connection the client opens next."""
     async def scenario(sim):
@@ -215,7 +218,7 @@ def run_one(kind, stream, cuts, idle_steps, settings, cb, split_at=None, resume_
                 await asyncio.sleep(0)
         await asyncio.sleep(5.0 + 0.03 * len(stream) / 13)     # let a slow callback (0.02 s per message) drain the queue
         await sim.call("close")
-    return simgw.run_session(kind, scenario, client_kwargs=settings, recv_cb=cb, bystander=bystander)
+    return simgw.run_session(kind, scenario, client_kwargs=settings, recv_cb=cb, bystander=bystander, cb_style=cb_style)
 
 
 def run_shard(spec, acc):
@@ -282,7 +285,9 @@ def run_shard(spec, acc):
         bset = set(_boundaries(packets))
         for label, cuts, idle in segmentations(kind, packets, rng, quick):
             by = label == "per_packet" or (label == "random" and rep % 2 == 0)      # some sessions next to an untouched second client
-            sim, stats = run_one(kind, stream, cuts, idle, settings, cb, bystander=by)
+            style = ("method", "object", "lambda", "partial")[(rep + len(cuts)) % 4]
+            acc.cover("callback_styles", style)
+            sim, stats = run_one(kind, stream, cuts, idle, settings, cb, bystander=by, cb_style=style)
             inside = any(c not in bset for c in cuts)
             judge(sim, stats, want, acc, kind, label, cuts, settings, cb, stream, undel, inside)
             if by and sim is not None and not stats["error"]:
